@@ -78,6 +78,14 @@ func RegisterInternalMessage[T any](messageName string, reader InternalMessageRe
 	internalMessageNameOfDesc[messageName] = desc
 }
 
+// nilMessageName 是 nil 消息在线路上的保留名称（例如失败的 PipeResult、空的调度消息不携带消息体）。
+const nilMessageName = "@nil"
+
+// RefFactory 根据地址与路径构造 ActorRef，由 internal/actor 在初始化时注入。
+// 根包中携带 ActorRef 字段的内置消息（OnKill.Killer、OnKilled.Ref）在解码时通过它重建引用；
+// 根包无法直接依赖 internal/actor（循环依赖）。
+var RefFactory func(address, path string) (any, error)
+
 func QueryMessageDesc(message any) *MessageDesc {
 	tof := reflect.TypeOf(message).Elem()
 	desc, ok := internalMessageTypeOfDesc[tof]
